@@ -770,6 +770,11 @@ def _str(interp, args, kwargs):
     if not args:
         return ""
     v = args[0]
+    if type(v) is Sym and v.ty is not bool:
+        from .objects import NumStr
+
+        interp.ctx.used_models.add("str(number): injective function of (type, value)")
+        return NumStr(v)
     if has_sym_deep(v):
         return SymStr(["<sym>"])
     if type(v) is SObj:
@@ -844,12 +849,7 @@ def _frozenset(interp, args, kwargs):
     if not args:
         return frozenset()
     items = list(interp.iterate(args[0]))
-    try:
-        return frozenset(items)
-    except SymLeak as e:
-        raise Unsupported("frozenset of symbolic values: %s" % e)
-    except TypeError as e:
-        raise PyExc(TypeError, e.args)
+    return frozenset(interp.make_set(items))
 
 
 def _sorted(interp, args, kwargs):
@@ -905,6 +905,7 @@ def _callable(interp, args, kwargs):
 
 HASH_NUM = z3.Function("hash_num", z3.RealSort(), z3.IntSort())
 HASH_PAIR = z3.Function("hash_pair", z3.IntSort(), z3.IntSort(), z3.IntSort())
+HASH_FS = z3.Function("hash_fs_member", z3.IntSort(), z3.IntSort())
 
 
 def hash_term(interp, v):
@@ -932,9 +933,27 @@ def hash_term(interp, v):
     if type(v) is NDArr:
         raise PyExc(TypeError, ("unhashable type: 'numpy.ndarray'",))
     if isinstance(v, frozenset):
-        if has_sym_deep(v):
-            raise Unsupported("hash of frozenset with symbolic members")
+        from .interp import SymKey, unkey
+
+        if any(type(k) is SymKey for k in v):
+            interp.ctx.used_models.add("hash(frozenset): commutative combination of the member hashes")
+            acc = z3.IntVal(1927868237)
+            for k in v:
+                acc = acc + HASH_FS(hash_term(interp, unkey(k)))
+            return acc
         return z3.IntVal(hash(v))
+    if type(v).__name__ == "ArrStr":
+        return hash_term(interp, tuple(v.items) + (v.shape,))
+    if type(v).__name__ == "NumStr":
+        return HASH_PAIR(z3.IntVal(7 if is_float_type(v.sym.ty) else 11), HASH_NUM(real_term(v.sym)))
+    if isinstance(v, (list, dict, set)):
+        raise PyExc(TypeError, ("unhashable type: '%s'" % type(v).__name__,))
+    if type(v).__name__ in ("dict_items", "dict_keys", "dict_values"):
+        if type(v).__name__ == "dict_values":
+            return z3.IntVal(hash(v))
+        if type(v).__name__ == "dict_items":
+            raise PyExc(TypeError, ("unhashable type: 'dict_items'",))
+        raise PyExc(TypeError, ("unhashable type: '%s'" % type(v).__name__,))
     if isinstance(v, SymStr):
         raise Unsupported("hash of symbolic string")
     try:
